@@ -30,16 +30,18 @@ REQUIRED = ['observations', 'preludes', 'proc_crosschecks', 'pty_cases', 'popen_
             'repeat_observations', 'inflicted_cases', 'run_stopped_before_child_exit']
 
 SIGNALS = [1, 2, 3, 6, 9, 10, 12, 13, 14, 15, 24, 25, 26, 27, 29, 30, 31, 34, 40, 64, 4, 8, 11, 7, 5]
+# realtime signals the language has no name for (signal.Signals(n) raises): a number is a number
+UNNAMED = [35, 36, 41, 49, 50, 57, 62, 63]
 PATHS = ['isalive', 'wait', 'close', 'terminate', 'eof-isalive', 'eof-wait', 'eof-close', 'read-eof-isalive',
          'close-noforce', 'terminate-force']
 
 
 def fates(tier, rng):
     if tier == 'thorough':
-        fs = [('exit', n) for n in range(256)] + [('signal', s) for s in SIGNALS]
+        fs = [('exit', n) for n in range(256)] + [('signal', s) for s in SIGNALS + UNNAMED]
     else:
         codes = sorted(set([0, 1, 2, 127, 128, 129, 137, 255, 254, 42] + [rng.randrange(256) for _ in range(14)]))
-        fs = [('exit', n) for n in codes] + [('signal', s) for s in SIGNALS[:12] + [rng.choice(SIGNALS[12:])]]
+        fs = [('exit', n) for n in codes] + [('signal', s) for s in SIGNALS[:12] + [rng.choice(SIGNALS[12:]), rng.choice(UNNAMED)]]
     return fs
 
 
